@@ -430,7 +430,14 @@ pub fn statement<'t>(ctx: Context<'t>) -> ParseResult<'t, Statement> {
                 expression(ctx)?
             };
             let (ctx, body) = statement(ctx)?;
-            (ctx.prev(), Loop { condition, body: Box::new(body) })
+            // The body has eaten the newline that ends this statement as well - hand it back.
+            // A body that was ended by `end`, `else` or `elif` has eaten nothing.
+            let ctx = if matches!(ctx.prev().token(), T::Newline) {
+                ctx.prev()
+            } else {
+                ctx
+            };
+            (ctx, Loop { condition, body: Box::new(body) })
         }
 
         // Enum declaration: `Abc :: enum A, B, C end`
